@@ -4,6 +4,7 @@ package node
 
 import (
 	"fmt"
+	"os/signal"
 	"strings"
 	"testing"
 	rt "time"
@@ -44,6 +45,24 @@ func startNode(name string, mode gen.NetworkMode) *node {
 	return n.(*node)
 }
 
+// dropNode stops a node for good and lets go of it: Node.Stop leaves the goroutine started by SetCTRLC blocked
+// on its signal channel, and that goroutine keeps the whole node (processes, mailboxes, connections, buffers)
+// reachable; over tens of thousands of executions a worker grew to 60 GB. The channel is deregistered and closed,
+// which is what the goroutine waits for.
+func dropNode(n *node) {
+	vsched.Quiet(func() { n.StopForce() })
+	for i := 0; i < 1000 && n.ctrlc == nil && n.enableCTRLC.Load(); i++ {
+		rt.Sleep(20 * rt.Microsecond) // the goroutine has not got as far as creating the channel yet
+	}
+	if c := n.ctrlc; c != nil {
+		signal.Stop(c)
+		func() {
+			defer func() { recover() }()
+			close(c)
+		}()
+	}
+}
+
 func waitSleep(n *node, pid gen.PID) {
 	for i := 0; i < 200000; i++ {
 		st, err := n.ProcessState(pid)
@@ -80,7 +99,7 @@ func nodeBodyL(level gen.LogLevel, build func(w *World)) func(ex *vsched.Exec) s
 		}
 		ex.Release()
 		n := w.n
-		vsched.Quiet(func() { n.StopForce() })
+		dropNode(n)
 		return strings.Join(w.out, " ")
 	}
 }
